@@ -645,9 +645,10 @@ class C03(Prop):
                   "abstract in the theorems (FloatOps) and IEEE doubles in the driver; in-place fast paths keyed on reference counts "
                   "(add_array, string join, absorb / compose_mapping) are compared on generated self / aliased operand programs only "
                   "(no heap model); shift counts outside 0..63 are outside the model")
-    rule = ("cases = corpus + known-finding inputs + boundary list + seeded random cases from 23 families (binary/unary "
+    rule = ("cases = corpus + known-finding inputs + boundary list + seeded random cases from 24 families (binary/unary "
             "operators, op=, ++/--, index, range, index/range/char lvalues, integer / nested / string switches, trees of degenerate "
-            "switches (only default, single case, default anywhere, siblings, three levels), loops, local / "
+            "switches (only default, single case, default anywhere, siblings, three levels), loops, comparison conditions whose two "
+            "operands have interacting side effects in every condition context (evaluation order), local / "
             "inherited / function-pointer calls, macros vs hand expansion, literals, zero-comparison rewrites, mapping algebra "
             "around every growMap threshold, self-operand / aliased-operand / freshness forms of the container and string operators "
             "(x op= x, x = x op x, a second reference held before, the alias as operand; local, global, array element, mapping value), "
@@ -2397,8 +2398,55 @@ class C03(Prop):
             fns.append(vals + [tree, ("ret", ("bin", "sub", I(0), L(LN)))])
         return make_case(cid, fns, same=[], meta={"origin": "generated", "family": "swshape"})
 
+    def fam_evalorder(self, rng, cid):
+        """EVALUATION ORDER of the two operands of every comparison operator in every condition context (while, for, do-while, if,
+        ?:, plain value): both operands have interacting side effects (k++ on a shared index, an assignment inside an operand, an
+        accumulating global), so the order is observable; the reference evaluates left to right."""
+        q = [rng.range(-3, 9) for _ in range(14)]
+        cmpops = ["lt", "le", "gt", "ge", "eq", "ne"]
+        init = [("expr", ("asg", L(A), Arr([I(v) for v in q]))), ("expr", ("asg", L(LI), I(0))), ("expr", ("asg", G(3), I(1)))]
+
+        def operands():
+            k = rng.weighted([("postinc", 4), ("asgidx", 3), ("accum", 3), ("mixed", 2), ("preinc", 2)])
+            if k == "postinc":
+                return ("idx", L(A), ("inc", "postinc", L(LI))), ("idx", L(A), ("inc", "postinc", L(LI)))
+            if k == "preinc":
+                return ("idx", L(A), ("inc", "preinc", L(LI))), ("idx", L(A), L(LI))
+            if k == "asgidx":
+                x, y = ("idx", L(A), L(LI)), ("idx", L(A), ("asg", L(LI), ("bin", "add", L(LI), I(1))))
+                return (x, y) if rng.chance(1, 2) else (y, x)
+            if k == "accum":
+                f = lambda d: ("asg", G(3), ("bin", "add", ("bin", "mul", G(3), I(3)), I(d)))
+                return ("bin", "mod", f(1), I(7)), ("bin", "mod", f(2), I(5))
+            return ("idx", L(A), ("inc", "postinc", L(LI))), ("bin", "add", L(LI), I(rng.range(-2, 3)))
+        guard = ("if", ("bin", "ge", L(LI), I(10)), "break", "nop")
+        bump = ("if", ("bin", "gt", ("inc", "preinc", L(LN)), I(6)), "break", "nop")
+        fin = [("ret", Arr([L(LN), L(LI), G(3)]))]
+        fns = []
+        for op in rng.shuffle(cmpops)[:rng.range(3, 6)]:
+            x, y = operands()
+            c = ("bin", op, x, y)
+            ctx = rng.weighted([("while", 4), ("for", 3), ("do", 3), ("if", 2), ("cond", 1), ("value", 1)])
+            body = ("block", [bump, guard])
+            if ctx == "while":
+                fns.append(init + [("while", c, body)] + fin)
+            elif ctx == "for":
+                fns.append(init + [("for", "nop", c, ("expr", ("aop", "add", L(LN), I(0))), body)] + fin)
+            elif ctx == "do":
+                fns.append(init + [("do", body, c)] + fin)
+            elif ctx == "if":
+                fns.append(init + [("if", c, ("expr", ("asg", L(LN), I(1))), ("expr", ("asg", L(LN), I(2))))] + fin)
+            elif ctx == "cond":
+                fns.append(init + [("expr", ("asg", L(LN), ("cond", c, I(1), I(2))))] + fin)
+            else:
+                fns.append(init + [("expr", ("asg", L(LN), c))] + fin)
+            # the same condition under ! and inside && (other branch opcodes)
+            if rng.chance(1, 2):
+                fns.append(init + [("while", ("and", c, ("bin", "lt", L(LN), I(5))), body)] + fin)
+        return make_case(cid, fns, same=[], meta={"origin": "generated", "family": "evalorder"})
+
     FAMS = [("fam_binop", 9), ("fam_unop", 2), ("fam_incdec", 3), ("fam_index", 5), ("fam_range", 5), ("fam_lvalue", 6),
-            ("fam_switch", 6), ("fam_loop", 6), ("fam_assignop", 5), ("fam_literal", 3), ("fam_rewrite", 4), ("fam_macro", 3), ("fam_calls", 5), ("fam_mapalg", 7), ("fam_maptrace", 5), ("fam_macrosubst", 7), ("fam_mdef", 4), ("fam_strswitch", 6), ("fam_selfop", 8), ("fam_funp", 8), ("fam_arrtrace", 3), ("fam_fresh", 7), ("fam_swshape", 7)]
+            ("fam_switch", 6), ("fam_loop", 6), ("fam_assignop", 5), ("fam_literal", 3), ("fam_rewrite", 4), ("fam_macro", 3), ("fam_calls", 5), ("fam_mapalg", 7), ("fam_maptrace", 5), ("fam_macrosubst", 7), ("fam_mdef", 4), ("fam_strswitch", 6), ("fam_selfop", 8), ("fam_funp", 8), ("fam_arrtrace", 3), ("fam_fresh", 7), ("fam_swshape", 7), ("fam_evalorder", 7)]
 
     def generate(self, rng, n, tier):
         out = []
